@@ -38,7 +38,7 @@ ToSet(q) == {q[k] : k \in 1..Len(q)}
 ClausesOf ==
   [C10 |-> {"C10_StartupSchedule", "C10_RefreshDue", "C10_NoStaleSchedule", "C10_MinSpacing", "C10_QueryShape"},
    C13 |-> {"C13_KnownAnswersExact", "C13_RemainingTtl", "C13_QuThenQm", "C13_TcOnAllButLast", "C13_Suppressed",
-            "C13_NotSuppressed"}]
+            "C13_NotSuppressed", "C13_QuestionOnce"}]
 Own(clause) == \/ D.own = "ALL" \/ clause \in {"Trace_Malformed", "C15_NoException"} \/ clause \in ClausesOf[D.own]
 Bad(cond, clause) == cond /\ Own(clause)
 Fail(st, clause) == [st EXCEPT !.err = clause]
@@ -183,6 +183,8 @@ OnQuery(st, e) ==
      ELSE IF st.qT = t
           THEN \* continuation packet of the same instant
                IF Bad(~st.qTc /\ Len(e.qs) = 0, "C13_TcOnAllButLast") THEN Fail(st, "C13_TcOnAllButLast")
+               \* one question is asked once per query: not again in a later datagram of the same instant
+               ELSE IF Bad(AskedTypes(e) \cap st.qTypes # {}, "C13_QuestionOnce") THEN Fail(st, "C13_QuestionOnce")
                ELSE Accumulate(st, e, t)
      ELSE IF Bad(\E q \in PtrQs(e) : q.qu # QuExpected(st), "C13_QuThenQm") THEN Fail(st, "C13_QuThenQm")
      ELSE IF st.nstart < 4
